@@ -63,6 +63,33 @@ def _env(seed: str) -> Dict[str, str]:
     return e
 
 
+def tree_fingerprint() -> str:
+    """sha256 over the compiler sources under test (the comparison is void if they change
+    while the check runs, e.g. a patch applied / reverted concurrently)"""
+    h = hashlib.sha256()
+    base = os.path.join(common.REPO, "compiler", "bitproto")
+    for rootd, dirs, files in os.walk(base):
+        dirs.sort()
+        for fn in sorted(files):
+            if fn.endswith(".py"):
+                p = os.path.join(rootd, fn)
+                h.update(p.encode())
+                try:
+                    with open(p, "rb") as f:
+                        h.update(f.read())
+                except OSError:
+                    h.update(b"<unreadable>")
+    return h.hexdigest()
+
+
+_FP = [""]
+
+
+def assert_tree_unchanged() -> None:
+    if tree_fingerprint() != _FP[0]:
+        raise RuntimeError("the compiler sources under test changed on disk during the run; observations are void (not a property violation)")
+
+
 # =============================================================================== programs
 class WS:
     """a directory of .bitproto files; `targets` are the files compiled on their own"""
@@ -74,6 +101,7 @@ class WS:
         self.kind = kind
         self.dir = ""
         self.twin_of: Optional[str] = None
+        self.twin_dir = ""  # directory of a workspace with the same file names and other content
 
     def traditional(self) -> bool:
         return not any("'" in t for t in self.files.values())
@@ -187,7 +215,7 @@ def _scalar(rng: random.Random) -> str:
 
 def _enum(rng: random.Random, name: str, prefix: str, ind: str, lintbad: bool) -> str:
     nb = rng.choice([2, 3, 4, 8, 12])
-    k = rng.randint(2, min(5, 2**nb))
+    k = rng.randint(2, min(5, 2**nb)) if rng.random() < 0.85 else rng.randint(2, min(9, 2**nb))
     vals = rng.sample(range(2**nb), k)
     if rng.random() < 0.7 and 0 not in vals:
         vals[0] = 0
@@ -198,7 +226,7 @@ def _enum(rng: random.Random, name: str, prefix: str, ind: str, lintbad: bool) -
             vals.reverse()
     lines = [f"{ind}enum {name} : uint{nb} {{"]
     for i, v in enumerate(vals):
-        nm = f"{prefix}_{'ZYXWV'[i]}{i}"
+        nm = f"{prefix}_{'ZYXWVUTSR'[i]}{i}"
         if lintbad and rng.random() < 0.2:
             nm = nm.lower()
         lines.append(f"{ind}    {nm} = {v}")
@@ -213,7 +241,9 @@ def _message(rng: random.Random, name: str, typed: List[Tuple[str, str]], ind: s
     names = {n for _, n in fs}
     pool = [n for n in FIELD_GOOD + (FIELD_BAD if lintbad else []) if n not in names]
     rng.shuffle(pool)
-    for _ in range(rng.randint(1, 4) if nextra is None else nextra):
+    if nextra is None:
+        nextra = rng.randint(1, 4) if rng.random() < 0.85 else rng.randint(8, 12)
+    for _ in range(min(nextra, len(pool))):
         t = _scalar(rng)
         if rng.random() < 0.3:
             t = f"{t}[{rng.choice([1, 2, 3, 5, 8])}]" + ("'" if ext_ok and rng.random() < 0.3 else "")
@@ -279,9 +309,16 @@ def gen_special_ws(rng: random.Random, idx: int, trad: Optional[bool] = None, al
         _message(rng, "Thing", [("Mode", "mode")], "", x, lintbad),
         "",
     ])
+    F["sub/deep.bitproto"] = "\n".join([
+        "proto deep", 'import "../extra.bitproto"', rng.choice(["", 'import cmn "../common.bitproto"']),
+        _message(rng, "Deep", [("extra.Mode", "mode"), ("extra.Thing", "thing")], "", x, lintbad),
+        "",
+    ])
     tn = "ty" if alias[1] else "types"
     timp = 'import "types.bitproto"' if tn == "types" else 'import ty "types.bitproto"'
-    imports_a = ['import "common.bitproto"', timp, 'import "util.bitproto"', 'import ex "extra.bitproto"']
+    dn = "dp" if alias[2] else "deep"
+    imports_a = ['import "common.bitproto"', timp, 'import "util.bitproto"', 'import ex "extra.bitproto"',
+                 'import "sub/deep.bitproto"' if dn == "deep" else 'import dp "sub/deep.bitproto"']
     rng.shuffle(imports_a)
     mname = "packet_raw" if lintbad and rng.random() < 0.5 else "Packet"
     F["main_a.bitproto"] = "\n".join([
@@ -291,7 +328,7 @@ def gen_special_ws(rng: random.Random, idx: int, trad: Optional[bool] = None, al
         _enum(rng, "Mode", "MODE", "", lintbad),
         _message(rng, "Header", [("Mode", "mode")], "", x, lintbad),
         _message(rng, mname, [("Header", "hdr"), ("common.Header", "common_hdr"), (f"{tn}.Header", "typed_hdr"), ("util.Packet", "inner_pkt"),
-                              ("ex.Thing", "thing"), ("Mode", "mode"), (f"{tn}.Color[3]", "colors"), ("ex.Mode", "ex_mode"), ("uint8[TOTAL]", "buf")], "", x, lintbad),
+                              ("ex.Thing", "thing"), ("Mode", "mode"), (f"{tn}.Color[3]", "colors"), ("ex.Mode", "ex_mode"), ("uint8[TOTAL]", "buf"), (f"{dn}.Deep", "deep_one")], "", x, lintbad),
         "",
     ])
     bn = "base" if alias[2] else "cmn"
@@ -304,7 +341,7 @@ def gen_special_ws(rng: random.Random, idx: int, trad: Optional[bool] = None, al
         "",
     ])
     files = {fn: decorate(tx, rng, lintbad) for fn, tx in F.items()}
-    others = ["common.bitproto", "types.bitproto", "util.bitproto", "extra.bitproto"]
+    others = ["common.bitproto", "types.bitproto", "util.bitproto", "extra.bitproto", "sub/deep.bitproto"]
     rng.shuffle(others)
     w = WS(f"s{idx}", files, ["main_a.bitproto", "main_b.bitproto"] + others[:2], "special")
     w.alias = alias  # type: ignore[attr-defined]
@@ -368,7 +405,7 @@ def reachable(ws: WS, fn: str) -> List[str]:
             return
         seen.append(f)
         for m in re.finditer(r'^\s*import (?:\w+ )?"([^"]+)"', ws.files[f], re.M):
-            walk(m.group(1))
+            walk(os.path.normpath(os.path.join(os.path.dirname(f), m.group(1))))
 
     walk(fn)
     return seen
@@ -439,7 +476,7 @@ class Unit:
         return f"{self.ws.name}/{self.fn}:{self.cfg()}"
 
     def expected_names(self) -> List[str]:
-        b = os.path.splitext(self.fn)[0]
+        b = os.path.splitext(os.path.basename(self.fn))[0]
         return sorted(f"{b}_bp{e}" for e in EXT[self.lang])
 
     def step_opts(self) -> Dict[str, Any]:
@@ -496,7 +533,9 @@ def cli_job(root: str, u: Unit, var: Dict[str, str]) -> Dict[str, Any]:
     """run the command line compiler for unit u under the variation `var`; returns what was
     written where it has to be written"""
     src_abs = os.path.join(u.ws.dir, u.fn)
-    cwd = {"ws": u.ws.dir, "root": root, "sub": os.path.join(u.ws.dir, "cw"), "else": os.path.join(root, "elsewhere", u.ws.name)}[var["cwd"]]
+    src_dir = os.path.dirname(src_abs)
+    elsewhere = os.path.join(root, "elsewhere", u.ws.name)
+    cwd = {"ws": u.ws.dir, "root": root, "sub": os.path.join(u.ws.dir, "cw"), "else": elsewhere, "twin": u.ws.twin_dir or elsewhere}[var["cwd"]]
     os.makedirs(cwd, exist_ok=True)
     rel = os.path.relpath(src_abs, cwd)
     path = {
@@ -531,23 +570,26 @@ def cli_job(root: str, u: Unit, var: Dict[str, str]) -> Dict[str, Any]:
         res["dir"] = collect_dir
     else:
         # default output directory = the directory of the source file; one at a time per workspace
-        lock = _ws_locks.setdefault(u.ws.name, threading.Lock())
+        with _counter_lock:
+            lock = _ws_locks.setdefault(u.ws.name, threading.Lock())
         with lock:
-            for fn in os.listdir(u.ws.dir):
+            for fn in os.listdir(src_dir):
                 if "_bp." in fn:
-                    os.unlink(os.path.join(u.ws.dir, fn))
+                    os.unlink(os.path.join(src_dir, fn))
             p = go()
             keep = _fresh(root, "o", u.ws.name)
-            for fn in os.listdir(u.ws.dir):
+            for fn in os.listdir(src_dir):
                 if "_bp." in fn:
-                    shutil.move(os.path.join(u.ws.dir, fn), os.path.join(keep, fn))
+                    shutil.move(os.path.join(src_dir, fn), os.path.join(keep, fn))
             res["files"] = sha_dir(keep)
             res["dir"] = keep
-            stray = [f for f in os.listdir(cwd) if "_bp." in f] if cwd != u.ws.dir else []
-            if stray:
-                res["stray_in_cwd"] = stray
-                for f in stray:
-                    os.unlink(os.path.join(cwd, f))
+            # (information for the replay) a private cwd must stay free of generated files
+            if var["cwd"] in ("sub", "else") and cwd != src_dir:
+                stray = [f for f in os.listdir(cwd) if "_bp." in f]
+                if stray:
+                    res["stray_in_cwd"] = stray
+                    for f in stray:
+                        os.unlink(os.path.join(cwd, f))
     res["rc"] = p.returncode
     res["stderr"] = p.stderr[-600:]
     return res
@@ -556,7 +598,7 @@ def cli_job(root: str, u: Unit, var: Dict[str, str]) -> Dict[str, Any]:
 BASE_VAR = {"seed": "0", "cwd": "ws", "path": "abs", "out": "abs", "q": "0"}
 DIMS = {
     "seed": ["0", "1", "2", "3", "random", "4242"],
-    "cwd": ["ws", "root", "sub", "else"],
+    "cwd": ["ws", "root", "sub", "else", "twin"],
     "path": ["abs", "rel", "dot", "nonnorm"],
     "out": ["abs", "rel", "slash", "nonnorm", "default"],
     "q": ["0", "1"],
@@ -699,8 +741,8 @@ class SchedBuilder:
         if style == "abs":
             st["file"] = src
             st["outdir"] = out_abs
-            if r.random() < 0.2:
-                st["cwd"] = r.choice([u.ws.dir, self.root])
+            if r.random() < 0.3:
+                st["cwd"] = r.choice([u.ws.dir, self.root, u.ws.twin_dir or self.root])
         elif style == "rel-ws":
             st["cwd"] = u.ws.dir
             st["file"] = u.fn  # twins are reached through the very same string
@@ -853,9 +895,11 @@ def check(run: common.Run, drv: Any, rng: random.Random, tier: str) -> None:
         "every other run of the same files with the same options (other hash seeds, cwd, path spelling, output dir, -q, "
         "and many compiles inside one process, interleaved / kept / repeated) must write the same names and bytes"
     )
+    _FP[0] = tree_fingerprint()
     with R.Scratch(prefix="bpv-c18-") as sc:
         root = os.path.realpath(sc.dir)
         _check(run, rng, sz, root)
+    assert_tree_unchanged()
 
 
 def _check(run: common.Run, rng: random.Random, sz: Dict[str, int], root: str) -> None:
@@ -882,9 +926,14 @@ def _check(run: common.Run, rng: random.Random, sz: Dict[str, int], root: str) -
         w.dir = os.path.join(root, "w", w.name)
         os.makedirs(w.dir)
         for fn, tx in w.files.items():
+            os.makedirs(os.path.dirname(os.path.join(w.dir, fn)), exist_ok=True)
             with open(os.path.join(w.dir, fn), "w") as f:
                 f.write(tx)
         run.count(f"workspace:{w.kind}")
+    for w in wss:
+        if w.twin_of:
+            o = [x for x in wss if x.name == w.twin_of][0]
+            w.twin_dir, o.twin_dir = o.dir, w.dir
     noise_dir = os.path.join(root, "noise")
     os.makedirs(noise_dir)
     for fn, tx in NOISE.items():
@@ -925,6 +974,7 @@ def _phases(run: common.Run, rng: random.Random, sz: Dict[str, int], root: str, 
             r2 = cli_job(root, u, alt)
             if r2["rc"] == 0 and sorted(r2["files"]) == u.expected_names():
                 u.base, u.base_dir, u.base_argv = r2["files"], r2["dir"], r2["argv"]
+                assert_tree_unchanged()
                 run.evaluated()
                 run.violation(_mark(root, {
                     "kind": "impl-vs-spec",
@@ -956,6 +1006,7 @@ def _phases(run: common.Run, rng: random.Random, sz: Dict[str, int], root: str, 
     by_key = {u.key(): u for u in valid}
 
     def report_cli(u: Unit, var: Dict[str, str], r: Dict[str, Any]) -> None:
+        assert_tree_unchanged()
         wsl = [u.ws]
         diff = first_difference(u.base_dir, u.base or {}, r["dir"], r["files"])
         if r.get("stray_in_cwd"):
@@ -1072,6 +1123,7 @@ def check_schedule(run: common.Run, s: Dict[str, Any], res: Dict[str, Any], by_k
 
 
 def report_schedule(run: common.Run, root: str, s: Dict[str, Any], res: Dict[str, Any], bad: int, by_key: Dict[str, Unit], wss: List[WS]) -> None:
+    assert_tree_unchanged()
     st = s["steps"][bad]
     why = step_fails(st, res["recs"].get(bad), by_key) or "process ended during this step"
     # shrink: (1) in parallel, try [steps the failing one needs] + one earlier step + failing step;
